@@ -13,6 +13,8 @@
 (*                    of less than a day / less than one bump, x every spelling of a whole-day      *)
 (*                    bump (int where the quantifier admits it, timedelta(days), 'nd', 'nw'),       *)
 (*                    day-and-a-half timedeltas, '24h', whole-day compounds, 'kb'                   *)
+(*   start-dependent family   6 starts x spans -DSpan..DSpan x compound bumps whose heading depends on    *)
+(*                    the start date ('1m-30d', '1b-2d', ...), where the iteration is steady               *)
 (* Invariants: one per clause of the statement.  Termination is checked as a liveness property    *)
 (* under weak fairness, without any state constraint.  The generator configuration prints every   *)
 (* case with the outcomes the specification accepts, for replay into the real drange (S2C).        *)
@@ -78,7 +80,20 @@ WBumps  == UNION {SpellingsOfDays(k) : k \in WK}
                  T2(1, "d", 0, "h"), T2(-1, "d", 0, "h"), T2(1, "w", -5, "d"), T2(-1, "w", 5, "d")}
 WCases  == UNION {{<<a, z, b>> : z \in UNION {WEnds(a, sp) : sp \in WSpan}, b \in WBumps} : a \in WStarts}
 
-Cases == {x \in DayCases \cup IntraCases \cup MonthCases \cup WCases : CaseInDomain(x[1], x[2], x[3])}
+\* ------------------------------------------------------------- start-dependent family -
+\* Compound bumps whose heading depends on the start date ('1m-30d' moves 1 Feb back to 30 Jan and any d Jan forward to
+\* d+1 Jan; '1b-2d' moves a Friday forward and a Monday back; '1m-4w' does not move 1 Feb 2001): which way a bump points
+\* is a fact about (t0, bump).  Kept where every step of the iteration moves towards t1 (Drange!Steady).
+DepStarts == {OrdOf(2001, 1, 1), OrdOf(2001, 1, 5), OrdOf(2001, 1, 6), OrdOf(2001, 2, 1), OrdOf(2000, 2, 1), OrdOf(2001, 3, 1)}
+DepBumps  == {T2(1, "m", -30, "d"), T2(-1, "m", 30, "d"), T2(1, "b", -2, "d"), T2(-1, "b", 2, "d"), T2(2, "b", -3, "d"), T2(1, "m", -4, "w")}
+DepCases  == {y \in {<<Midnight(a), Midnight(a + sp), b>> : a \in DepStarts, sp \in (-DSpan)..DSpan, b \in DepBumps} :
+                  CaseInDomain(y[1], y[2], y[3]) /\ Steady(y[1], y[2], y[3])}
+
+Cases == {x \in DayCases \cup IntraCases \cup MonthCases \cup WCases : CaseInDomain(x[1], x[2], x[3])} \cup DepCases
+\* the family is not vacuous: one bump heads both ways and is rejected both ways within it
+ASSUME \A b \in {T2(1, "m", -30, "d"), T2(1, "b", -2, "d"), T2(-1, "b", 2, "d"), T2(-1, "m", 30, "d")} :
+           \A d \in {-1, 1} : /\ \E y \in DepCases : y[3] = b /\ Dir(y[1], b) = d /\ Toward(y[1], y[2]) = d
+                               /\ \E y \in DepCases : y[3] = b /\ Dir(y[1], b) = d /\ Toward(y[1], y[2]) = -d
 
 Init == DrInit(Cases)
 Next == DrNext
